@@ -310,6 +310,18 @@ def step (c : Ctx) (line : String) : Ctx × String :=
     | some i, some g =>
       (c, s!"s {(state (c.fkb i).alpha (Table.getD (c.fkb i).world (c.fstate.get i) g)).toString}")
     | _, _ => bad
+  | ["floss", kind, coeff, ids] =>
+    -- `_contradiction_loss` (per row) / `_uncertainty_loss` (one contradiction flag per formula) summed over formulae
+    match parseRat coeff, parseIds ids with
+    | some k, some l =>
+      let s := c.fstate
+      let v : Q := (l.map fun i =>
+        let a := (c.fkb i).alpha
+        let rows := s.get i
+        if kind = "c" then (rows.map fun r => contradictionLoss k a r.b).sum
+        else if rows.any (fun r => isContra a r.b) then 0 else (rows.map fun r => k * (r.b.hi - r.b.lo)).sum).sum
+      (c, s!"l {showRat v}")
+    | _, _ => bad
   | ["fresetb"] =>
     let s := c.fstate
     (c.setFState ⟨s.tabs.map fun p => (p.1, p.2.resetBounds)⟩, "ok")
